@@ -4,6 +4,7 @@ from ..core import queries as Q
 from ..core.program import fmt_term, fmt_atom
 
 META = {
+    "technique": "static analysis: repository-specific dataflow / guard-dominance / path rules over LLVM IR (CFG, SSA, resolved call graph); one rule compares configuration constants read from the units' macro tables and the generated headers",
     "explanation": (
         "Typestate of struct routing_request (allocated -> registered in the owner's table with armed timer -> completed): "
         "(1) R-OWN: every successful removal from a routing table that yields the entry reaches a completion (free of the "
